@@ -24,13 +24,16 @@ def base_programs(thorough, seed):
     return progs
 
 
-def run_spec(programs, rep, timeout=3000):
-    text = "\n".join(T.types_json(p) for p in programs) + "\n"
+def run_spec(programs, rep, timeout=3000, chunk=12000):
     cfg = "SPECIFICATION Spec\nINVARIANTS VerdictWellFormed Export\nCHECK_DEADLOCK FALSE\n"
-    r = C.run_tlc("HmsTypes", cfg, files=[("programs.ndjson", text)], timeout=timeout, heap="24g")
-    C.tlc_must_pass(r, "HmsTypes")
-    rep.add_tlc(r)
-    out = {c["id"]: c for c in r.cases}
+    out = {}
+    # (TLC holds the whole program file as one value: bounded pieces keep it inside the heap)
+    for i in range(0, len(programs), chunk):
+        text = "\n".join(T.types_json(p) for p in programs[i:i + chunk]) + "\n"
+        r = C.run_tlc("HmsTypes", cfg, files=[("programs.ndjson", text)], timeout=timeout, heap="24g")
+        C.tlc_must_pass(r, "HmsTypes")
+        rep.add_tlc(r)
+        out.update({c["id"]: c for c in r.cases})
     missing = [p["id"] for p in programs if p["id"] not in out]
     if missing:
         raise C.Machinery("HmsTypes produced no verdict for %d programs, e.g. %s" % (len(missing), missing[:3]))
